@@ -330,6 +330,17 @@ let run_enc (proto : string) (su : string) (failat : string) (toks : string list
   | EWriteErr -> "writeerr returned=1" ^ tail
   | EPanic -> "panic" ^ tail
 
+(* the round-trip theorem's prediction: norm c v, printed like a decoded value *)
+let run_norm (proto : string) (su : string) (toks : string list) : string =
+  let (v, _) = parse_rval toks in
+  let cfg = { e_proto = z_of_dec proto; e_strict = (su = "1"); e_isprint = is_print_hi; e_fmtg = fmt_g } in
+  match norm cfg v with
+  | None -> "NA"
+  | Some t ->
+    (match dump_val_capped [] (unerase t) with
+     | None -> "ok TOOBIG"
+     | Some d -> "ok " ^ string_of_bytes d)
+
 let parse_one (toks : string list) : val0 * string list =
   parse_val toks
 
@@ -485,6 +496,7 @@ let handle (line : string) : string =
        Printf.sprintf "v=%s int=%s str=%s bytes=%s" (string_of_bytes (dump_val st.d_heap v)) i s b
      | ((r, _), _) -> "decode " ^ show_res (fun _ -> "") r)
   | "enc" :: proto :: su :: failat :: rest -> run_enc proto su failat rest
+  | "norm" :: proto :: su :: rest -> run_norm proto su rest
   | "dict" :: rest -> run_dict rest
   | "lookup" :: n :: rest -> run_lookup n rest
   | "declong" :: rest ->
